@@ -5,6 +5,7 @@ from hypothesis import strategies as st
 
 from pv import gen, codec
 from pv.probes import BOOM_KINDS
+from pv import catgen
 from pv.core import Sub, Fail, exc_fail
 from pv.ref import base as R
 
@@ -61,6 +62,8 @@ def sort_case(draw, tier):
         # optionally the very first pass hits a transient source fault at this data row; "every pass" includes the retry
         "fail_first": draw(st.one_of(st.none(), st.none(), st.integers(0, max(0, n - 1)))) if n else None,
         "fail_kind": draw(st.sampled_from(BOOM_KINDS)),
+        # the container form of the input (tuple of tuples, __iter__-only object, rows that are neither list nor tuple ...)
+        "form": draw(st.sampled_from(["lists", "lists", "lists"] + catgen.FORMS)),
         # the input may itself be a sorted petl view (by the first field, either direction) - sort of a sort
         "upstream": draw(st.sampled_from(["none", "none", "none", "sortfirst", "sortfirst-rev", "sortsame"])),
     }
@@ -74,7 +77,9 @@ def check_sort(case, ctx):
     tbl, key, reverse = case["table"], case["key"], case["reverse"]
     bs, cache = case["buffersize"], case["cache"]
     n = len(tbl) - 1
-    src = codec.snapshot(tbl)
+    src = catgen.shape(codec.snapshot(tbl), case.get("form", "lists"))
+    if case.get("form", "lists") != "lists":
+        ctx.label("form:" + case["form"])
     up = case.get("upstream", "none")
     if case.get("fail_first") is not None:
         up = "none"
@@ -148,7 +153,7 @@ def check_sort(case, ctx):
             if not R.is_sorted_seq(gk, reverse=reverse):
                 return Fail("sort/order", "pass %d keys %r" % (p, gk))
             return Fail("sort/stability", "pass %d got %r expected %r" % (p, got, exp))
-    if not codec.strict_eq(src, tbl):
+    if case.get("form", "lists") == "lists" and not codec.strict_eq(src, tbl):
         return Fail("sort/source-mutated", "source changed")
     return None
 
